@@ -153,7 +153,7 @@ def m_from_ymd_opt(ev, a, t, d):
 
 def m_duration(unit):
     def f(ev, a, t, d):
-        return ("dur", unit, a[0])
+        return mk_dur(unit, a[0])
     return f
 
 
@@ -179,6 +179,20 @@ def m_date_checked_add(ev, a, t, d):
         if (b is None or small_unsigned(b)) and -90_000_000 < dt[2] + k < 90_000_000:
             return some(("date", canon_base(b), dt[2] + k))
     raise sym.Undecided("checked date addition of an unbounded or non-day duration")
+
+
+def mk_dur(unit, x):
+    """a duration of `x` units; a constant positive factor of x moves into the unit (seconds(m * 60) = minutes(m)), provided
+    the product was computed in i64 (it cannot have wrapped for the 16/32-bit wire fields these accessors read)"""
+    while isinstance(x, tuple) and x and x[0] == "bin" and x[1] == "Mul" and len(x) == 5 and x[4] == "i64":
+        a, b = x[2], x[3]
+        if sym.is_c(b) and isinstance(b[1], int) and b[1] > 0 and small_unsigned(a):
+            unit, x = unit * b[1], a
+        elif sym.is_c(a) and isinstance(a[1], int) and a[1] > 0 and small_unsigned(b):
+            unit, x = unit * a[1], b
+        else:
+            break
+    return ("dur", unit, x)
 
 
 def m_pred_opt(ev, a, t, d):
